@@ -57,14 +57,19 @@ func (vc *FnVC) doCall(x ssa.Value, c *ssa.CallCommon) {
 		return
 	}
 	wname := witnessName(c)
-	vc.callOcc[wname]++
-	wit := fmt.Sprintf("%s#%d", wname, vc.callOcc[wname])
+	ord, ok := vc.callOrd[c]
+	if !ok {
+		vc.callOcc[wname]++
+		ord = 1000 + vc.callOcc[wname]
+	}
+	wit := fmt.Sprintf("%s#%d", wname, ord)
 
 	var args []Val
 	var con *Contract
 	var sig *types.Signature
 	var paramNames []string
 	var callee *ssa.Function
+	var closureFn *ssa.Function
 	desc := ""
 	switch {
 	case c.IsInvoke():
@@ -143,12 +148,42 @@ func (vc *FnVC) doCall(x ssa.Value, c *ssa.CallCommon) {
 			for _, p := range f.Params {
 				paramNames = append(paramNames, p.Name())
 			}
+			closureFn = f
 		}
 	}
 	if con != nil && con.Params != nil && len(con.Params) == len(args) && (con.Kind == "external" || con.Kind == "iface" || con.Kind == "functype") {
 		paramNames = con.Params
 	}
+	vc.closureEnv = nil
+	if closureFn != nil {
+		// the closure's contract may name its captured variables: bind them to their current contents here
+		vc.closureEnv = map[string]Val{}
+		for _, b := range vc.fn.Blocks {
+			for _, ins := range b.Instrs {
+				if mc, ok := ins.(*ssa.MakeClosure); ok && mc.Fn == closureFn {
+					for i, bd := range mc.Bindings {
+						if i >= len(closureFn.FreeVars) {
+							break
+						}
+						pt, isPtr := bd.Type().Underlying().(*types.Pointer)
+						if !isPtr {
+							continue
+						}
+						if _, known := vc.addrs[bd]; !known {
+							if _, isReg := vc.regs[bd]; !isReg {
+								continue
+							}
+						}
+						a := vc.addrOf(bd)
+						k := vc.sorts.sortOf(pt.Elem())
+						vc.closureEnv[closureFn.FreeVars[i].Name()] = Val{vc.load(a), pt.Elem(), k}
+					}
+				}
+			}
+		}
+	}
 	results := vc.applyContract(con, desc, wit, callee, sig, paramNames, args)
+	vc.closureEnv = nil
 	if x != nil {
 		switch len(results) {
 		case 0:
@@ -186,6 +221,9 @@ func (vc *FnVC) applyContract(con *Contract, desc, wit string, callee *ssa.Funct
 	vc.registerKey(tickKey, SInt)
 
 	env := vc.newEnv(con, callee)
+	for n, v := range vc.closureEnv {
+		env.vars[n] = v
+	}
 	for i, a := range args {
 		if i < len(paramNames) && paramNames[i] != "" && paramNames[i] != "_" {
 			env.vars[paramNames[i]] = a
@@ -195,6 +233,53 @@ func (vc *FnVC) applyContract(con *Contract, desc, wit string, callee *ssa.Funct
 	env.cur = vc.st
 	env.old = pre
 
+	// `assert call F#k: expr` clauses of the enclosing function: a condition on the arguments at this call site
+	if vc.con != nil {
+		for i, ac := range vc.con.Asserts {
+			src := strings.TrimSpace(ac.Src)
+			if !strings.HasPrefix(src, "call ") {
+				continue
+			}
+			rest := strings.TrimSpace(src[5:])
+			k := strings.Index(rest, ":")
+			if k < 0 {
+				continue
+			}
+			target := strings.TrimSpace(rest[:k])
+			tag := ""
+			if strings.HasPrefix(target, "[") {
+				if j := strings.Index(target, "]"); j > 0 {
+					tag = target[1:j]
+					target = strings.TrimSpace(target[j+1:])
+				}
+			}
+			if !strings.Contains(target, "#") {
+				target += "#1"
+			}
+			if target != wit {
+				continue
+			}
+			e, err := parseSpecExpr(rest[k+1:])
+			if err != nil {
+				vc.specErrs = append(vc.specErrs, fmt.Sprintf("%s assert %d: %v", vc.key, i+1, err))
+				continue
+			}
+			aenv := vc.invEnv(vc.st)
+			for j, a := range args {
+				aenv.vars[fmt.Sprintf("arg%d", j)] = a
+			}
+			t, serr := vc.trySpec(func() string { return aenv.boolExpr(e) })
+			if serr != "" {
+				vc.stale = append(vc.stale, fmt.Sprintf("%s assert at call %s: %s", vc.key, wit, serr))
+				continue
+			}
+			vc.flushSide(aenv)
+			if tag == "" {
+				tag = fmt.Sprint(i + 1)
+			}
+			vc.assert("call-arg", wit+":"+tag, t)
+		}
+	}
 	pure := con != nil && con.Pure
 	if con == nil {
 		// no contract: everything reachable may change; nothing is known about the result (unverified callee)
@@ -272,6 +357,18 @@ func (vc *FnVC) applyContract(con *Contract, desc, wit string, callee *ssa.Funct
 		for _, p := range vc.fn.Params {
 			vc.assumeTypeInv(vc.regs[p], false)
 		}
+		// locals holding pointers to objects with an encapsulated invariant
+		var las []*ssa.Alloc
+		for a := range vc.st.locals {
+			las = append(las, a)
+		}
+		sort.Slice(las, func(i, j int) bool { return las[i].Pos() < las[j].Pos() || las[i].Pos() == las[j].Pos() && las[i].Name() < las[j].Name() })
+		for _, a := range las {
+			et := a.Type().(*types.Pointer).Elem()
+			if c, _ := vc.typeInvFor(et); c != nil {
+				vc.assumeTypeInv(Val{vc.st.locals[a], et, SInt}, false)
+			}
+		}
 		for _, fv := range vc.freeVars {
 			if pt, ok := fv.Type().Underlying().(*types.Pointer); ok {
 				if _, isPtr := pt.Elem().Underlying().(*types.Pointer); isPtr {
@@ -310,6 +407,16 @@ func (vc *FnVC) applyContract(con *Contract, desc, wit string, callee *ssa.Funct
 			}
 			vc.flushSide(env)
 			vc.assume(t)
+		}
+	}
+	// objects handed to the callee: their encapsulated invariants hold again on return (non-writer functions only)
+	if con != nil && !pure {
+		for _, a := range args {
+			if a.T != nil {
+				if _, isPtr := a.T.Underlying().(*types.Pointer); isPtr {
+					vc.assumeTypeInv(a, false)
+				}
+			}
 		}
 	}
 	// witnesses
@@ -368,14 +475,39 @@ func (vc *FnVC) flushSide(env *SpecEnv) {
 }
 
 func (vc *FnVC) havocAll() {
+	oldEpoch := vc.st.epoch
 	vc.epochN++
 	vc.st.epoch = vc.epochN
+	newEpoch := vc.st.epoch
 	pres := map[string]string{}
 	for _, k := range vc.keyOrd {
 		if isHeapKey(k) && vc.immutableKey(k) {
 			pres[k] = vc.cur(k)
 		}
 	}
+	// what no callee can reach: captured variables nobody reassigns, and slices private to this function
+	type keep struct{ key, ref, old string }
+	var keeps []keep
+	vc.st.epoch = oldEpoch // read the pre-havoc values
+	for _, sb := range vc.stableBoxes {
+		keeps = append(keeps, keep{sb.key, sb.ref, sSelect(vc.cur(sb.key), sb.ref)})
+	}
+	for a := range vc.privSlices {
+		cur, ok := vc.st.locals[a]
+		if !ok {
+			continue
+		}
+		st := a.Type().(*types.Pointer).Elem().Underlying().(*types.Slice)
+		key, _ := vc.memKey(st.Elem())
+		base := sx("sl.base", cur)
+		keeps = append(keeps, keep{key, base, sSelect(vc.cur(key), base)})
+	}
+	vc.st.epoch = newEpoch
+	defer func() {
+		for _, k := range keeps {
+			vc.assume(sEq(sSelect(vc.cur(k.key), k.ref), k.old))
+		}
+	}()
 	for k := range vc.st.vars {
 		if isHeapKey(k) && !vc.eng.immutableGlobalKey(k) {
 			delete(vc.st.vars, k)
